@@ -127,16 +127,26 @@ pub fn non_codes(rng: &mut Rng) -> Vec<String> {
     v
 }
 
-fn builder_words<'a>(rng: &mut Rng, lex: &'a Lexicon) -> Vec<&'a str> {
+fn builder_words(rng: &mut Rng, lex: &Lexicon) -> Vec<String> {
     let k = 1 + rng.usize(5);
     (0..k)
-        .map(|_| match rng.below(12) {
-            0 => lex.conj,
-            1 => lex.sep,
-            2 | 3 if !lex.ordinal_words.is_empty() => rng.pick(&lex.ordinal_words).as_str(),
-            4 => rng.pick(&lex.fillers).as_str(),
-            5 => lex.zero,
-            _ => rng.pick(&lex.number_words).as_str(),
+        .map(|_| {
+            let w: &str = match rng.below(14) {
+                0 => lex.conj,
+                1 => lex.sep,
+                2 | 3 if !lex.ordinal_words.is_empty() => rng.pick(&lex.ordinal_words).as_str(),
+                4 => rng.pick(&lex.fillers).as_str(),
+                5 => lex.zero,
+                12 | 13 => rng.pick(&lex.linking).as_str(),
+                _ => rng.pick(&lex.number_words).as_str(),
+            };
+            // one word in five is a near miss of the vocabulary (accents folded, a letter dropped or doubled ...): the
+            // two paths must also agree on what they refuse
+            if rng.chance(1, 5) {
+                crate::gen::near_miss(rng, w)
+            } else {
+                w.to_string()
+            }
         })
         .collect()
 }
@@ -207,7 +217,8 @@ pub fn run(ctx: &Ctx) -> Outcome {
                     rep.count("stream_cases");
                 }
                 _ => {
-                    let words = builder_words(&mut rng, lex);
+                    let owned = builder_words(&mut rng, lex);
+                    let words: Vec<&str> = owned.iter().map(|w| w.as_str()).collect();
                     let dec_from = if rng.chance(1, 3) { rng.usize(words.len() + 1) } else { words.len() };
                     crate::core::set_current(code, "facade vs concrete (trait methods)", &words.join(" "));
                     rep.eval(hash_bytes(&[code.as_bytes(), b"b", words.join(" ").as_bytes(), &[dec_from as u8]]), true);
